@@ -926,6 +926,27 @@ func (c *c18Ctx) fullCheck(w *c18W, tb *lua.LTable, m string, h c18Hist) int {
 			unp("unpack(t,i,j)", argc, want, w.fnUnpack3, lua.LNumber(i), lua.LNumber(j))
 		}
 	}
+	// ranges reaching beyond the list: the manual defines unpack(t,i,j) as t[i], ..., t[j], so
+	// positions above n yield nil
+	for _, i := range []int{1, n, n + 1, n + 2, n + 3} {
+		if i < 1 {
+			continue
+		}
+		for _, j := range []int{n + 1, n + 2, n + 3} {
+			if i > j {
+				continue
+			}
+			want := make([]byte, 0, j-i+1)
+			for k := i; k <= j; k++ {
+				if k <= n {
+					want = append(want, m[k-1])
+				} else {
+					want = append(want, '-')
+				}
+			}
+			unp("unpack(t,i,j)", "j>n", string(want), w.fnUnpack3, lua.LNumber(i), lua.LNumber(j))
+		}
+	}
 	return evals
 }
 
@@ -1321,7 +1342,7 @@ func runC18(r *harness.Run) {
 		"list elements are 1, 2, 3 and \"a\" (history part) and small integers or records keyed by them (sort part); no metatables",
 		"the model never has holes: direct assignment only at n+1, at n with nil, or over an existing element, so #t is unique",
 		"state merging assumes that a table's future depends only on the content of its array slice and hash part, not on spare capacity behind the slice",
-		"table.remove(t) on an empty list may return nil or nothing (position 0 is outside 1..n); concat/unpack ranges beyond n+1 are outside the statement and not judged",
+		"table.remove(t) on an empty list may return nil or nothing (position 0 is outside 1..n); concat ranges beyond n+1 are outside the statement and not judged; unpack(t,i,j) beyond n yields nils (t[i..j])",
 		"sort of a list mixing numbers and strings must raise (any comparison sort has to compare a number with a string) and leave a permutation; the order it leaves is taken from the implementation",
 		"for inconsistent or failing comparators only termination (comparator-call bound 50*n^2+100), 'permutation or Lua error' (the table must hold a permutation in both cases), comparator arguments and absence of Go run-time panics are judged",
 	}
@@ -1354,6 +1375,7 @@ func runC18(r *harness.Run) {
 	r.Extra["concat_single_number_range_returned_number_not_judged"] = atomic.LoadInt64(&c.concatSingleNumber)
 	r.Count("bfs_states", main.states+long.states)
 	r.Count("bfs_transitions", main.transitions+long.transitions)
+	c18FalseFamily(r)
 }
 
 func c18RunSortFamily(r *harness.Run, c *c18Ctx, workers []*c18W, lists [][]int) {
